@@ -216,7 +216,13 @@ Digits(n) == IF n < 10 THEN <<48 + n>> ELSE Append(Digits(n \div 10), 48 + (n % 
 SendersIn(ms) == {m.snd : m \in {x \in ms : x.snd # <<>> /\ x.snd[1] = cColon}}
 AnnouncedUniques == UniquesIn(AllObs) \cup SendersIn(AllObs)
                     \cup (IF NextIsRound THEN UniquesIn(ObsOf(Log[l + 1])) \cup SendersIn(ObsOf(Log[l + 1])) ELSE {})
-HelloNames(s, op) == IF op.got # <<>> THEN {op.got} ELSE AnnouncedUniques \cup {<<cColon, 48, 46>> \o Digits(l * 10 + s)}
+\* (... or as what the bus answered to the Hello itself, wherever that answer was read)
+OwnReplies(s, op) == {m.args[1].v : m \in {x \in ObsOf(Ev) \cup (IF NextIsRound THEN ObsOf(Log[l + 1]) ELSE {}) :
+                                            /\ x.ty = 2 /\ x.rs = op.ser /\ x.snd = BUS /\ Len(x.args) = 1
+                                            /\ x.args[1].t = 115 /\ x.args[1].v # <<>> /\ x.args[1].v[1] = cColon
+                                            /\ x.dst = x.args[1].v}}
+HelloNames(s, op) == IF op.got # <<>> THEN {op.got}
+                     ELSE AnnouncedUniques \cup OwnReplies(s, op) \cup {<<cColon, 48, 46>> \o Digits(l * 10 + s)}
 
 \* internal state reported by the in-process harness (registry queues, primary's allow_replacement, rule counts)
 DumpOK(op) ==
